@@ -237,17 +237,8 @@ func (g *gen) save(mode string) {
 			fs = uint64(max(1, int64(fs)+int64(rapid.IntRange(-1, 1).Draw(t, "cutOff"))))
 			o.Start = min(max(fs, lo), hi)
 		}
-		if fi, slot := m.store.SlotGe(o.Start); fi != -1 && slot > 0 && !g.allowKnownDefect {
-			// known finding C17-rotated-file-first-payload: truncating into a rotated (non-current) file at a slot
-			// other than its first destroys the length header of the file's first payload. Left out by construction;
-			// cut at the first slot of that file instead when the commit index allows it.
-			g.c.Excluded("conflict_into_rotated_file_slot_gt0")
-			fs := o.Start - uint64(slot)
-			if fs < lo {
-				t.Skip("known-finding class only")
-			}
-			o.Start = fs
-		}
+		// (C17-rotated-file-first-payload, fixed in /repo: truncations into a rotated file at any slot are generated;
+		// replays/C17/rotated_file_first_payload_*.json are the regression cases)
 	}
 	g.drawSizes(&o)
 	prevTerm := m.termOf(o.Start - 1)
